@@ -166,3 +166,29 @@ def follow(doc, path):
     for p in path:
         node = node[p]
     return node
+
+
+def BU(L, *atoms):
+    """Bounds for Union/int/str atoms: strings at most L long, ints in the 64-bit range."""
+    for u in atoms:
+        if isinstance(u, str):
+            if len(u) > L:
+                return False
+        elif isinstance(u, bool) or u is None:
+            pass
+        elif isinstance(u, int):
+            if not (-(2**63) <= u < 2**63):
+                return False
+    return True
+
+
+def same_objs(label, got, exp):
+    """Same length and element-wise identical objects (not merely equal ones)."""
+    ok = len(got) == len(exp)
+    if ok:
+        for a, b in zip(got, exp):
+            if a is not b:
+                ok = False
+    if REPLAY and not ok:
+        print(f"  MISMATCH (identity) {label}: implementation={got!r} expected={exp!r}")
+    return ok
